@@ -24,7 +24,7 @@ import gen
 from c20_vocab import vocab_category
 
 PROOF_MODULES = ["UnytProofs.C20", "UnytProofs.C20Tab0", "UnytProofs.C20Tab1", "UnytProofs.C20Tab2", "UnytProofs.C20Names",
-                 "UnytProofs.C20Syntax", "UnytProofs.C20Total", "UnytProofs.C20Roundtrip", "UnytProofs.C20Arith"]
+                 "UnytProofs.C20Syntax", "UnytProofs.C20Total", "UnytProofs.C20Roundtrip", "UnytProofs.C20Arith", "UnytProofs.C20Cache"]
 HERE = os.path.dirname(os.path.abspath(__file__))
 LIMIT = 8.0  # seconds per request on the real parser
 
@@ -983,6 +983,112 @@ def run(tier, seed):
             chk.count("model-only:c20.layout(lexer/evaluator self-consistency, not a tie to the code)")
             if m[0] != "ok" or m[1] != want or (m[2] != want and not m[2].startswith("err|unmodelled")) or m[3] != "1":
                 chk.disagree("c20.layout", f"{progs[k]}: layout round trip broken in the model: {m} (want {want})")
+
+    # ------------------------------------------------------------------ histories on one registry: the unit-object cache
+    def variants(t):
+        vs = [t, t, " " + t, t + " ", t.replace("*", " * "), t.swapcase(), t.lower(), t.upper(), t.replace("µ", "μ").replace("u", "μ", 1),
+              t.replace("m", "M", 1), t.replace("k", "K", 1), t.replace("P", "p", 1), t.strip("()"), "(" + t + ")"]
+        return rng.choice(vs)
+
+    FAILING = ["m**", "zz", "(m", "m)", "zz*m", "m**zz", "m/", "2m"]
+    hist_fixed = [
+        [["s", "m"], ["s", "m"], ["b", list(b"m")], ["w", "m"], ["s", "m**"], ["s", "m**"], ["c", ""], ["w", "m"], ["s", "m"], ["s", " m"], ["b", [255]]],
+        [["s", "mm"], ["s", "Mm"], ["s", "MM"], ["s", "mM"], ["s", "Pa"], ["s", "pA"], ["s", "PA"], ["s", "pa"]],                # keys differing in case only
+        [["s", "km/s"], ["s", "km / s"], ["s", " km/s"], ["s", "km/s "], ["s", "(km/s)"], ["s", "km/s"], ["s", "km*s**-1"]],  # … in spacing only
+        [["s", "µm"], ["s", "μm"], ["s", "um"], ["b", list("µm".encode())], ["s", "Ω"], ["s", "ohm"], ["s", "Ω"]],       # … in spelling only
+        [["w", "km"], ["s", "km"], ["w", "km"], ["c", ""], ["s", "km"]],                                                          # data handed in is never stored
+        [["s", "zz"], ["s", "zz"], ["s", "m"], ["s", "zz*m"], ["s", "m"], ["s", ""], ["s", ""], ["s", " "], ["s", "1"], ["s", "dimensionless"]],
+        [["s", "degC"], ["s", "degc"], ["s", "DEGC"], ["s", "°C"], ["s", "degC"], ["s", "%"], ["s", "percent"]],
+        [["s", "m"], ["s", "s"], ["s", "m*s"], ["s", "s*m"], ["s", "m"], ["c", ""], ["s", "s*m"], ["s", "m*s"]],
+    ]
+    hists = list(hist_fixed)
+    for _ in range(200 if quick else 4000):
+        pool = [rng.choice(valid) for _ in range(rng.randint(1, 3))] + [rng.choice(G.atoms), rng.choice(FAILING)]
+        h = []
+        for _ in range(rng.randint(3, 12)):
+            t = variants(rng.choice(pool))
+            r = rng.random()
+            if r < 0.7:
+                h.append(["s", t])
+            elif r < 0.8:
+                h.append(["b", list(t.encode("utf-8"))])
+            elif r < 0.92:
+                h.append(["w", t])
+            else:
+                h.append(["c", ""])
+        hists.append(h)
+    hrep = reals[0].run([{"k": "history", "calls": h} for h in hists])
+
+    def hist_py(h, upto):
+        lines = ["from unyt.unit_registry import UnitRegistry", "from unyt import dimensions", "reg = UnitRegistry()",
+                 "def make(kind, arg, reg):", "    if kind == 'w':", "        return Unit(arg, base_value=2.5, dimensions=dimensions.length, registry=reg)",
+                 "    return Unit(bytes(arg) if kind == 'b' else arg, registry=reg)",
+                 "def facts(kind, arg, reg):", "    try:", "        u = make(kind, arg, reg)", "    except Exception as e:", "        return type(e).__name__",
+                 "    return (str(u.expr), str(u.dimensions), round(float(u.base_offset), 9), '%.9e' % float(u.base_value))",
+                 f"calls = {h[:upto + 1]!r}", "n = 0", "for kind, arg in calls[:-1]:", "    if kind == 'c':", "        n += 1", "        reg.add('c20aux%d' % n, 1.0, dimensions.length)",
+                 "    else:", "        facts(kind, arg, reg)", "kind, arg = calls[-1]", "got = facts(kind, arg, reg)", "want = facts(kind, arg, UnitRegistry())",
+                 "assert got == want, ('Unit(...) depends on what the registry was asked before', calls, got, want)"]
+        return PRE + "\n".join(lines) + "\n"
+
+    hlines, hidx = [], []
+    for k, (h, rep) in enumerate(zip(hists, hrep)):
+        chk.case(("history", json.dumps(h)), {"history": h[:5]} if k == len(hist_fixed) else None)
+        if rep.get("r") != "history":
+            chk.count(f"history:{rep.get('r')}")
+            if rep.get("r") == "hang":
+                chk.fail("hang|history", f"history {h} did not return", {"python": snip_hang(h[0][1] if isinstance(h[0][1], str) else "m")})
+            continue
+        chk.count("history:ok")
+        for j, ((kind, arg), d) in enumerate(zip(h, rep["calls"])):
+            chk.count(f"history-call:{kind}:{d['o']}")
+            # DIRECT ORACLE (plain string / bytes calls): the answer must not depend on the history of the registry
+            if kind in ("s", "b") and d.get("vs_fresh", "same") != "same":
+                chk.fail(f"cache|history-dependent|{d['vs_fresh']}", f"call {j} of history {h}: Unit({arg!r}, registry=reg) differs from the same call on an unused registry in {d['vs_fresh']}",
+                         {"python": hist_py(h, j), "history": h})
+        def wire(kind, arg):
+            if kind == "c":
+                return "c"
+            if kind == "b":
+                return "b=" + ",".join(map(str, arg))
+            return kind + "=" + cps(arg)
+        if any(kind in ("s", "w") and (any(0xD800 <= ord(c) <= 0xDFFF for c in arg) or vocab_category(arg) is not None) for kind, arg in h):
+            chk.count("history:text-outside-vocabulary(model skipped)")
+            continue
+        hlines.append("c20.history\t" + "|".join(wire(kind, arg) for kind, arg in h))
+        hidx.append(k)
+    try:
+        hm = core.Model("drv_c20").ask(hlines)
+    except Exception as e:  # noqa: BLE001
+        hm = []
+        chk.disagree("driver", repr(e))
+    for k, m in zip(hidx, hm):
+        h, rep = hists[k], hrep[k]
+        chk.count("model:c20.history")
+        if m[0] != "ok" or len(m) != len(h) + 2:
+            chk.disagree("c20.history", f"{h}: model reply {m[:3]}")
+            continue
+        if any(x.startswith("E|err|") and x[6:] in ("unmodelled", "outOfVocabulary", "hang") for x in m[1:-1]):
+            chk.count("history:model-outside-its-domain(skipped)")
+            continue
+        okay = True
+        for j, ((kind, arg), d, x) in enumerate(zip(h, rep["calls"], m[1:-1])):
+            if x[0] != d["o"]:
+                chk.disagree("c20.history", f"call {j} of {h}: model {x[:40]} implementation {d['o']} ({d.get('exc')})")
+                okay = False
+                break
+            if d["o"] == "E" and not (x == "E|err|UnitParseError" and d["exc"] == "UnitParseError"):
+                chk.disagree("c20.history", f"call {j} of {h}: model {x} implementation raises {d['exc']}")
+                okay = False
+                break
+            if d["o"] in ("H", "B") and d["expr"] is not None:
+                c, fac = real_expr(d["expr"])
+                want = f"{d['o']}|ok|{gen.rat_str(c)}|" + ";".join(f"{s}:{gen.rat_str(q)}" for s, q in sorted(fac.items()))
+                if x != want:
+                    chk.disagree("c20.history", f"call {j} of {h}: model {x} implementation {want}")
+                    okay = False
+                    break
+        if okay and int(m[-1]) != rep["cached"]:
+            chk.disagree("c20.history", f"{h}: {rep['cached']} texts cached at the end, model {m[-1]}")
 
     # ------------------------------------------------------------------ limit_denominator: the model's loop against CPython's / sympy's
     import sympy
